@@ -129,12 +129,11 @@ def describe(w, custom_names):
     """comparison form of a WBS through public getters, in WBS order"""
     out = []
     for t in w.tasks:
-        d = t.to_dict()
         out.append({
             'id': t.id, 'parent': t.parent.id if t.parent else None, 'children': [c.id for c in t.children],
             'preds': [p.id for p in t.predecessors], 'name': norm_text(t.name), 'resource': norm_text(t.resource),
             'start': t.start, 'end': t.end, 'estimate': t.estimate, 'spent': t.spent, 'milestone': t.milestone,
-            'min_start': t.min_start, 'custom': {c: norm_custom(d.get(c)) for c in custom_names},
+            'min_start': t.min_start, 'custom': {c: norm_custom(getattr(t, c, None)) for c in custom_names},
         })
     return out
 
